@@ -10,8 +10,8 @@ ID = 'C15'
 LEVEL = 'model_checking'
 RULE = ('every expression tree with <= K operators (quick 2, thorough 3) over {+ - * / %} (symbol and word forms), operands '
         '{2, 3, size, hardlinks} (+ length(name), 7, -3, -size, abs(..), pow(2,3), -length(name) at K<=1), minimal and full '
-        'bracketing (round and curly); independence: every ordered pair of a pool of expressions that differ only in one '
-        'operator, in bracket placement, in sign or in a later function argument, and select lists of 3..5; WHERE e OP n for '
+        'bracketing (round and curly), with and without spaces around operators; independence: every ordered pair of a pool of expressions that differ only in one '
+        'operator, in bracket placement, in sign, in a later function argument or in the letter case of a string literal, and expressions that read the entry only through functions (contains), and select lists of 3..5; WHERE e OP n for '
         'n in {v-1, v, v+1}; division by zero excluded; non-trivial = value differs between rows or between pair members')
 MC_NOTE = ('expression space explored breadth-first by number of operators; the pair space of the pool is complete; every '
            'state is executed on the real binary and compared with a float evaluator')
@@ -31,7 +31,8 @@ def bounds(tier):
 
 def the_tree():
     return {'a': F(1), 'bb': F(4), 'ccc': F(7), 'dddd': F(10), 'e5': F(250), 'h1': F(5), 'h2': {'t': 'f', 'link': 'h1'},
-            'h3': {'t': 'f', 'link': 'h1'}, 'k1': F(12), 'k2': {'t': 'f', 'link': 'k1'}}
+            'h3': {'t': 'f', 'link': 'h1'}, 'k1': F(12), 'k2': {'t': 'f', 'link': 'k1'},
+            'AaBb': F(data='alpha only, 11'), 'bAAb': F(data='beta here'), 'ABab': F(data='alpha and beta together'), 'none': F(data='neither')}
 
 
 def shapes(k):
@@ -121,6 +122,12 @@ def evaluate(e, ent):
     return math.fmod(a, b)
 
 
+def flat(e):
+    if isinstance(e, str):
+        return [e]
+    return flat(e[1]) + flat(e[2])
+
+
 def nops(e):
     return 0 if isinstance(e, str) else 1 + nops(e[1]) + nops(e[2])
 
@@ -132,7 +139,11 @@ def pool(tier):
          'size', '-size', 'hardlinks', '-hardlinks', 'size + hardlinks', 'size * hardlinks', 'hardlinks + size',
          'pow(2, 3)', 'pow(2, 4)', 'pow(3, 2)', 'length(name)', '-length(name)', 'length(name) + 1', 'length(name) * 1',
          '10 - 2 - 3', '10 - (2 - 3)', '100 / 10 / 2', '100 / (10 / 2)', '3', '-3', '7 % 4', '7 % 4 * 2', '7 % (4 * 2)',
-         'abs(0 - size)', 'abs(size - 300)', 'size - 300', 'size plus 1', 'size mul 1', '{2 + 3} * 4']
+         'abs(0 - size)', 'abs(size - 300)', 'size - 300', 'size plus 1', 'size mul 1', '{2 + 3} * 4',
+         "length(replace(name, 'A', 'xyz')) * 2 + size", "length(replace(name, 'a', 'xyz')) * 2 + size",
+         "length(replace(name, 'B', 'q')) + 1", "length(replace(name, 'b', 'q')) + 1",
+         "contains('alpha') + contains('beta')", "contains('beta') + contains('alpha') * 2", "contains('alpha') * 10 + 1",
+         '(size*2)', '(size/2)+1', 'pow(size/2, 2)', '(size%3)*2', '(hardlinks*size)-1', '{size*2}']
     if tier == 'thorough':
         p += ['size + 2', 'size * 2', 'size - 2', 'size / 2', 'size % 2', 'size + 1 + 1', 'size + (1 + 1)', 'size * 2 + 1',
               'size * (2 + 1)', 'least(size, 5)', 'least(size, 6)', 'greatest(size, 5)', 'greatest(size, 6)', 'pow(size, 2)',
@@ -141,6 +152,21 @@ def pool(tier):
     return p
 
 
+def _cont(e, w):
+    return 1.0 if w in e.get('text', '') else 0.0
+
+
+POOL_TEXT_VALUES = {
+    "length(replace(name, 'A', 'xyz')) * 2 + size": lambda e: len(e['name'].replace('A', 'xyz')) * 2.0 + e['size'],
+    "length(replace(name, 'a', 'xyz')) * 2 + size": lambda e: len(e['name'].replace('a', 'xyz')) * 2.0 + e['size'],
+    "length(replace(name, 'B', 'q')) + 1": lambda e: len(e['name'].replace('B', 'q')) + 1.0,
+    "length(replace(name, 'b', 'q')) + 1": lambda e: len(e['name'].replace('b', 'q')) + 1.0,
+    "contains('alpha') + contains('beta')": lambda e: _cont(e, 'alpha') + _cont(e, 'beta'),
+    "contains('beta') + contains('alpha') * 2": lambda e: _cont(e, 'beta') + _cont(e, 'alpha') * 2,
+    "contains('alpha') * 10 + 1": lambda e: _cont(e, 'alpha') * 10 + 1,
+    '(size*2)': lambda e: e['size'] * 2.0, '(size/2)+1': lambda e: e['size'] / 2.0 + 1, 'pow(size/2, 2)': lambda e: (e['size'] / 2.0) ** 2,
+    '(size%3)*2': lambda e: math.fmod(e['size'], 3) * 2, '(hardlinks*size)-1': lambda e: e['nlink'] * e['size'] - 1.0, '{size*2}': lambda e: e['size'] * 2.0,
+}
 POOL_VALUES = {
     'least(size, 5)': lambda e: min(e['size'], 5.0), 'least(size, 6)': lambda e: min(e['size'], 6.0),
     'greatest(size, 5)': lambda e: max(e['size'], 5.0), 'greatest(size, 6)': lambda e: max(e['size'], 6.0),
@@ -151,6 +177,12 @@ POOL_VALUES = {
 
 
 def pool_value(text, ent):
+    if text in POOL_TEXT_VALUES:
+        return POOL_TEXT_VALUES[text](ent)
+    return _pool_value(text, ent)
+
+
+def _pool_value(text, ent):
     """value of a pool expression through a tiny recursive-descent evaluator over the same grammar"""
     toks = tokenize(text)
     pos = [0]
@@ -249,8 +281,12 @@ def groups(tier, seed):
         for e in enum_exprs(k, operands):
             styles = (0, 1, 2) if k <= 1 else ((0,) if tier == 'quick' else (0, 1))
             for st in styles:
-                for words in ((False, True) if (k <= 1 or idx % 7 == 0) else (False,)):
-                    txt = render(e, st, words)
+                for words in ((False, True, 'compact') if (k <= 1 or idx % 7 == 0) else (False, 'compact') if idx % 3 == 0 else (False,)):
+                    txt = render(e, st, words is True)
+                    if words == 'compact':
+                        if k == 0 or any(isinstance(x, str) and x.startswith('-') for x in flat(e)):
+                            continue
+                        txt = txt.replace(' + ', '+').replace(' - ', '-').replace(' * ', '*').replace(' / ', '/').replace(' % ', '%')
                     idx += 1
                     if txt in seen:
                         continue
@@ -293,7 +329,10 @@ def entries(root):
     res = []
     for n in sorted(os.listdir(root)):
         st = os.lstat(os.path.join(root, n))
-        res.append({'name': n, 'size': st.st_size, 'nlink': st.st_nlink})
+        txt = ''
+        if st.st_size < 100 and n in ('AaBb', 'bAAb', 'ABab', 'none'):
+            txt = open(os.path.join(root, n)).read()
+        res.append({'name': n, 'size': st.st_size, 'nlink': st.st_nlink, 'text': txt})
     return res
 
 
